@@ -384,3 +384,106 @@ def replay_evaluate_rules(name, insts):
         if pre_ok and not holds:
             return {"replayed": True, "confirmed": True, "how": "real RateLimiter.evaluate_rules called natively with the decoded counter-model; clock injected", **rec}
     return {"replayed": bool(tried), "confirmed": False, "tried": tried[:3]}
+
+
+# ---------------------------------------------------------------------------------------------------- RateLimiter.cleanup (C19, C18)
+# called from the `finally` of every connection handler: it must never raise (C19), must leave the global history alone and
+# may only clear whole histories (C18).  Which histories it may clear w.r.t. the rules that apply to them is NOT stated here.
+class RCItems:
+    """self.recent_commands.items(): (scope key, inner mapping) for the scope keys present (ASSUMED: some set of keys, each once)"""
+
+    def __init__(self, rc_ref):
+        self.rc_ref = rc_ref
+
+    def __pyvc_iter__(self, sx, st, node):
+        return ("opaque", self)
+
+    def next(self, sx, st, k):
+        key = sx.fresh(V.Str, "scope_key", st)
+        return [R(st, Conc((key, Conc(ScopeView(self.rc_ref, key.term)))))]
+
+
+class InnerItems:
+    """commands.items(): (command, deque) for the commands present in one scope"""
+
+    def __init__(self, view):
+        self.view = view
+
+    def __pyvc_iter__(self, sx, st, node):
+        return ("opaque", self)
+
+    def next(self, sx, st, k):
+        cmd = sx.fresh(V.Str, "cmd", st)
+        outs = []
+        for r in self.view.__pyvc_getitem__(sx, cmd, st, None):
+            outs.append(R(r.st, Conc((cmd, r.val))))
+        return outs
+
+
+def _scopeview_getattr(self, sx, attr, st, node):
+    if attr == "items":
+        return [R(st, Func(lambda sx2, a, k, s, n: [R(s, Conc(InnerItems(self)))], "commands.items"))]
+    raise Unsupported("inner mapping .%s" % attr, node)
+
+
+def _scopeview_len(self, sx, st, node):
+    n = sx.fresh(V.Int, "n_commands", st)     # number of commands present in this scope: unknown, non-negative
+    st.assume(n.term >= 0)
+    return [R(st, n)]
+
+
+ScopeView.__pyvc_getattr__ = _scopeview_getattr
+ScopeView.__pyvc_len__ = _scopeview_len
+
+
+@REG.method("RecentCommands", "items", frame=[])
+def _rc_items(sx, args, kwargs, st, node):
+    return [R(st, Conc(RCItems(args[0])))]
+
+
+@REG.hook("delitem", "RecentCommands")
+def _rc_delitem(sx, obj, k, st, node):
+    """del self.recent_commands[k]: the scope's histories are gone (a defaultdict recreates them empty); KeyError if absent"""
+    m = st.getcell(obj.cell)["map"]
+    absent = st.fork()
+    c = z3.String(fresh_name("dc"))
+    empty_inner = z3.Lambda([c], TS.empty())
+    st.getcell(obj.cell)["map"] = Val(RCMAP, z3.Store(m.term, k.term, empty_inner))
+    return [(st, None), (absent, Exc("KeyError"))]
+
+
+cleanup = REG.unit(Unit(
+    P, "RateLimiter.cleanup",
+    Contract("RateLimiter.cleanup", {"self": V.ObjT("RateLimiter"), "s0": V.Bytes, "c0": V.Str},
+             requires=[("deque-wellformed", REP(("s0", "c0")))],
+             ensures=[
+                 # C18: a history is either kept as it was or cleared as a whole -- never edited
+                 ("histories-kept-or-cleared", "dq(self.recent_commands, s0, c0) == old(dq(self.recent_commands, s0, c0)) or len(dq(self.recent_commands, s0, c0)) == 0"),
+                 ("global-history-untouched", "dq(self.recent_commands, b'global', c0) == old(dq(self.recent_commands, b'global', c0))"),
+             ],
+             raises={},       # C19: runs in the finally block of every connection handler
+             modifies=["self.recent_commands", "ghost.clock"]),
+    props=["C19", "C18"], setup=setup_limiter,
+    canaries=[("never-returns", "False")],
+))
+cleanup.contract.ghost_params = ("s0", "c0")
+cleanup.loops = {
+    1: LoopSpec("ip-rules", index="_a", invariants=[("max-interval-is-a-number", "max_interval >= 0")]),
+    2: LoopSpec("scopes", index="_b", invariants=[
+        ("kept-or-cleared", "dq(self.recent_commands, s0, c0) == old(dq(self.recent_commands, s0, c0)) or len(dq(self.recent_commands, s0, c0)) == 0"),
+        ("global-untouched", "dq(self.recent_commands, b'global', c0) == old(dq(self.recent_commands, b'global', c0))"),
+        ("never-schedules-global", "all_range(0, len(to_del), lambda i: to_del[i] != 'global')"),
+    ]),
+    3: LoopSpec("commands", index="_c", invariants=[
+        ("kept-or-cleared", "dq(self.recent_commands, s0, c0) == old(dq(self.recent_commands, s0, c0)) or len(dq(self.recent_commands, s0, c0)) == 0"),
+        ("global-untouched", "dq(self.recent_commands, b'global', c0) == old(dq(self.recent_commands, b'global', c0))"),
+        ("not-the-global-scope", "ip != 'global'"),
+        ("never-schedules-global", "all_range(0, len(to_del), lambda i: to_del[i] != 'global')"),
+    ]),
+    4: LoopSpec("deletions", index="_d", invariants=[
+        ("kept-or-cleared", "dq(self.recent_commands, s0, c0) == old(dq(self.recent_commands, s0, c0)) or len(dq(self.recent_commands, s0, c0)) == 0"),
+        ("global-untouched", "dq(self.recent_commands, b'global', c0) == old(dq(self.recent_commands, b'global', c0))"),
+        ("never-deletes-global", "all_range(0, len(to_del), lambda i: to_del[i] != 'global')"),
+    ]),
+}
+cleanup.local_types = {"to_del": V.List(V.Str), "cleared": V.List(V.Str)}
